@@ -610,6 +610,21 @@ def measure_line(line, p):
     return (True, len(mark) + len(name), blanks, alen, separated)
 
 
+def zero_amount_style_lost(xs, t1, t2):
+    """finding F8 seen through the commodity's style: a commodity whose only posting amount is a zero (printed as a bare 0)
+    and which otherwise occurs in costs and lot prices only (these teach no style) has no style in the printed journal, so the
+    second print places its symbol differently (`EUR280.26` for `280.26 EUR`).  True when every differing line names such a commodity."""
+    taught, zero = set(), set()
+    for x in xs:
+        for p in x.posts:
+            for a in (p.amt, p.assigned, p.computed):
+                if a is not None and a.sym:
+                    (zero if (a is p.amt and a.value == 0) else taught).add(a.sym)
+    lost = zero - taught
+    l1, l2 = t1.split('\n'), t2.split('\n')
+    return bool(lost) and len(l1) == len(l2) and all(a == b or any(c in a for c in lost) for a, b in zip(l1, l2))
+
+
 def differs_by_padding_only(t1, t2):
     """the two print outputs differ only by blanks at the end of posting lines (before a note or the line end): finding F50"""
     l1, l2 = t1.split('\n'), t2.split('\n')
@@ -902,7 +917,10 @@ def run_one(ctx, res, j, xs, text, path, out_reg, model, layout_cases, idem_case
             mod_same = all(mm.get((i, 'I'), ['SAME'])[0] == 'SAME' for i in range(len(xs)))
             # the bytes also depend on the padding after an amount print left out (finding F50): decided once the
             # layout model has run
-            idem_cases.append((text, P2 == P, mod_same, pad_lines, [(i, mm.get((i, 'I'))) for i in range(len(xs))]))
+            if P2 != P and zero_amount_style_lost(xs, Ptext, P2.decode('utf-8', 'replace')):
+                res.count('idempotence-skipped:style-of-zero-amount-commodity')      # commodity styles are not modelled (C04)
+            else:
+                idem_cases.append((text, P2 == P, mod_same, pad_lines, [(i, mm.get((i, 'I'))) for i in range(len(xs))]))
     # ---- oracle 1: the rows of J equal the rows of the re-read print
     nontrivial = False
     if not reread_ok:
@@ -957,7 +975,10 @@ def run_one(ctx, res, j, xs, text, path, out_reg, model, layout_cases, idem_case
         # ---- oracle 2: print is idempotent, byte for byte
         if st3 != 0 or P2 != P:
             only_padding = st3 == 0 and differs_by_padding_only(Ptext, P2.decode('utf-8', 'replace'))
-            res.violations.append(dict(key='print-not-idempotent' + (':padding-after-omitted-amount' if only_padding else ''), desc='print(print J) differs from print J',
+            style_lost = st3 == 0 and zero_amount_style_lost(xs, Ptext, P2.decode('utf-8', 'replace'))
+            res.violations.append(dict(key='reread-rows:zero-amount-commodity-lost' if style_lost else
+                                       'print-not-idempotent' + (':padding-after-omitted-amount' if only_padding else ''),
+                                       desc='print(print J) differs from print J' + (' (the style of a commodity whose only posting amount is a zero is not learnt from the bare 0)' if style_lost else ''),
                                        case=dict(journal=text, printed=Ptext), observed=P2.decode('utf-8', 'replace')[:2000], required=Ptext[:2000]))
     if nontrivial:
         for i, x in enumerate(xs):
